@@ -327,6 +327,26 @@ Section Concrete.
       - apply (fc_bank_rest _ _ _ _ Hfull); intros X; inversion X; subst; eapply Hg; eauto.
     Qed.
 
+    (** The concrete stack adds no panic: with the concrete [convert_coin] (which CAN panic: 256-bit sdk.Int
+        overflow in the escrow, supply underflow in BurnCoins) the middleware returns whenever the wrapped application
+        does, on every state that respects the two bank invariants for the receiver and the hook's denomination:
+        balances fit 256 bits together and the supply covers the receiver's holdings. *)
+    Theorem concrete_no_new_panic : forall st pkt st1 a,
+      transfer_sound cstate decode parse_int transfer_recv ->
+      (forall x, length (sha256 x) = 32%nat) ->
+      transfer_recv st pkt = Ok (st1, a) ->
+      (forall d amt, decode (pk_data pkt) = Some d -> parse_int (fd_amount d) = Some amt ->
+         let m := hmsg pkt d amt in
+         bal st1 MODULE (cm_denom m) + bal st1 (cm_sender m) (cm_denom m) < W256 /\
+         bal st1 (cm_sender m) (cm_denom m) <= get1 (c_supply st1) (cm_denom m)) ->
+      exists st2 hp, mw st pkt = Ok (st2, Some a, hp).
+    Proof.
+      intros st pkt st1 a Hts Hsha Et Hinv. apply (middleware_no_new_panic_at _ _ _ _ _ _ _ _ _ _ _ _ Et). intros Es.
+      destruct (Hts _ _ _ _ Et Es) as (d & amt & Ed & Ea & Hpos).
+      exists d, amt. repeat split; auto.
+      destruct (Hinv d amt Ed Ea) as [H1 H2]. apply convert_coin_no_panic; assumption.
+    Qed.
+
     (** the code before e0a53b0 credited common.BytesToAddress(receiver): the receiver itself exactly when its
         address has 20 bytes *)
     Lemma credited_address : forall pkt d amt r,
@@ -395,5 +415,44 @@ Section Monitor.
       destruct Howner as [(Ho & H1 & H2 & H3 & H4)|(Ho & H1 & H2 & _ & H3 & H4)]; rewrite Ho.
       + rewrite H1, H2, H3, H4, !Z.eqb_refl. reflexivity.
       + rewrite H1, H2, H3, H4, !Z.eqb_refl. reflexivity.
+  Qed.
+  (** the stronger check used on the DIRECT call of the keeper hook (kind 72): funds untouched and then the registry
+      untouched too unless the contract is dead, or a full conversion credited to a 20-byte receiver.  (The direct call
+      is the middleware around a wrapped application that changes nothing and acknowledges success, so
+      [after_middleware] describes it.) *)
+  Theorem monitor_sound_strong : forall sha256 decode parse_int from_bech32 pkt st1 st2 hp g rest,
+    after_middleware MODULE sha256 decode parse_int from_bech32 pkt st1 st2 hp ->
+    forall d amt, decode (pk_data pkt) = Some d -> parse_int (fd_amount d) = Some amt ->
+    let m := hook_msg sha256 from_bech32 pkt d amt in
+    cm_sender m <> MODULE ->
+    forall owner c,
+      (forall id p, minting_enabled st1 m = Some (id, p) -> cp_owner p = owner /\ cp_erc20 p = c) ->
+      let b := proj (cm_sender m) (cm_denom m) g c rest st1 in
+      let s := proj (cm_sender m) (cm_denom m) g c rest st2 in
+      (snap_funds_eqb b s &&
+       (negb (mem1 c (c_code st1)) || (Bool.eqb (sn_indexed b) (sn_indexed s) && Bool.eqb (sn_pair b) (sn_pair s)))) ||
+      (full_conversion_obs owner false amt b s && Nat.eqb (length (cm_sender m)) 20) = true.
+  Proof.
+    intros sha256 decode parse_int from_bech32 pkt st1 st2 hp g rest Ham d amt Ed Ea m Hsm owner c Hown b s.
+    pose proof (monitor_sound sha256 decode parse_int from_bech32 pkt st1 st2 hp g rest Ham d amt Ed Ea Hsm owner c Hown) as Hm.
+    cbv zeta in Hm. fold m in Hm. fold b s in Hm.
+    destruct Ham as [E _|d' amt' id p _ Ed' Ea' Hme Hcode _ Hf _|d' amt' id p _ Ed' Ea' Hrs Hme _ Hfull].
+    - subst st2. subst b s. rewrite snap_funds_eqb_same by (unfold same_funds; tauto).
+      rewrite !Bool.eqb_reflx, orb_true_r. reflexivity.
+    - rewrite Ed in Ed'. inversion Ed'; subst d'. rewrite Ea in Ea'. inversion Ea'; subst amt'.
+      fold m in Hme. destruct (Hown _ _ Hme) as [_ Hc]. subst c. rewrite Hcode. cbn [negb orb].
+      subst b s. rewrite snap_funds_eqb_same; [reflexivity|]. destruct Hf as (A & B & C & D). unfold same_funds. auto.
+    - rewrite Ed in Ed'. inversion Ed'; subst d'. rewrite Ea in Ea'. inversion Ea'; subst amt'.
+      fold m in Hrs.
+      assert (Hl : Nat.eqb (length (cm_sender m)) 20 = true).
+      { rewrite <- Hrs. unfold m, hook_msg. cbn [cm_receiver]. rewrite evm_addr_length. reflexivity. }
+      rewrite Hl, andb_true_r.
+      (* the funds-only monitor holds; if it holds through "untouched" the strong left disjunct needs the registry,
+         which a full conversion leaves alone *)
+      destruct (full_conversion_obs owner false amt b s) eqn:Ef; [apply orb_true_r|].
+      rewrite orb_false_r in Hm. rewrite Hm. cbn [andb].
+      destruct Hfull as [_ _ _ _ _ _ _ _ (R1 & R2 & R3) _].
+      subst b s. unfold proj. cbn [sn_indexed sn_pair]. unfold c_is_registered. rewrite R1, R3, !Bool.eqb_reflx.
+      rewrite orb_true_r. reflexivity.
   Qed.
 End Monitor.
